@@ -265,3 +265,5 @@ def run(ctx):
     r4_codes_intact(ctx)
     r5_closure_result(ctx)
     r6_drop_is_reset(ctx)
+    from . import C20
+    C20.r3_flush_handover(ctx, 'C17.R7')  # a reset discards only the reset stream's own in-flight DATA
